@@ -137,10 +137,11 @@ NOSCHED_ORD = ('monotonic', 'unordered')
 
 class Engine:
     def __init__(self, m, entry='harness', max_faults=1, max_preempt=2, max_path_steps=400000, max_enum=64,
-                 solver_timeout_ms=20000, single_threaded_libc=True, shared_points=False):
+                 solver_timeout_ms=20000, single_threaded_libc=True, shared_points=False, harness_roots=None):
         self.m = m; self.lay = Layout(m); self.entry = entry
         self.max_faults = max_faults; self.max_preempt = max_preempt; self.max_path_steps = max_path_steps; self.max_enum = max_enum
         self.solver_timeout_ms = solver_timeout_ms; self.shared_points = shared_points
+        self.harness_roots = [os.path.realpath(r).rstrip('/') + '/' for r in (harness_roots or [os.path.dirname(os.path.dirname(os.path.abspath(__file__)))])]
         self.reset_stats()
         self.fobj = {}; self.gobj = {}; self.base = {}
         self.init_state = State(); st = self.init_state
@@ -218,9 +219,9 @@ class Engine:
             fcls = {}
             def file_cls(fid):
                 if fid is None or fid not in md: return None
-                fn = md[fid][4] or ''
+                fn = os.path.normpath(md[fid][4] or '')
                 if '/include/eventpp/' in fn: return 1
-                if fn.startswith('/verif/'): return 0
+                if any(fn.startswith(r) or os.path.realpath(fn).startswith(r) for r in self.harness_roots): return 0
                 return None
             def node_cls(nid):
                 c = fcls.get(nid, -1)
